@@ -235,7 +235,7 @@ def css_fold(t, wide):
             c = _FOLD[o]
         elif wide and 0xff21 <= o <= 0xff5a:
             c = chr(o - 0xfee0)
-        out.append(c.lower() if len(c.lower()) == 1 else c)
+        out.append(chr(ord(c) + 32) if 'A' <= c <= 'Z' else c)
     return ''.join(out)
 
 
@@ -416,7 +416,7 @@ def run_real(case):
             'kept': [e[2][1] for e in out], 'r': r}
 
 
-def oracle_case(case, res=None):
+def oracle_case(case, res=None, real=None):
     kind = case['kind']
     fails = []
 
@@ -424,7 +424,7 @@ def oracle_case(case, res=None):
         fails.append({'case': case, 'what': what, 'expected': expected, 'observed': observed})
 
     if kind in ('html', 'raw'):
-        rr = run_real(case)
+        rr = real or run_real(case)
         if res is not None:
             res.count('status:' + rr['status'])
         if rr['status'] == 'parse-error':
@@ -498,17 +498,191 @@ def gen_cases(rng, n):
     return cases
 
 
+# ---------------------------------------------------------------------------------------
+# correspondence with the Lean model (and of the Lean spec with the oracle's readers)
+
+def has_surrogate(x):
+    if isinstance(x, str):
+        return any(0xD800 <= ord(c) <= 0xDFFF for c in x)
+    if isinstance(x, (list, tuple)):
+        return any(has_surrogate(y) for y in x)
+    return False
+
+
+def wire_cfg(cfg):
+    if cfg is None:
+        return Atom('D')
+    r = resolve_cfg(cfg)
+    return [r['safe_tags'], r['safe_attrs'], r['safe_schemes'], r['uri_attrs'], r['safe_css']]
+
+
+def wire_ev(e):
+    k = e[0]
+    opt = lambda x: N if x is None else x
+    if k == 'S':
+        return [Atom('S'), list(e[1]), [[list(a), v] for a, v in e[2]]]
+    if k == 'E':
+        return [Atom('E'), list(e[1])]
+    if k == 'T':
+        return [Atom('T'), e[1], B(e[2])]
+    if k == 'C':
+        return [Atom('C'), e[1]]
+    if k == 'PI':
+        return [Atom('PI'), e[1], e[2]]
+    if k == 'DT':
+        return [Atom('DT'), e[1], opt(e[2]), opt(e[3])]
+    if k == 'XD':
+        return [Atom('XD'), e[1], opt(e[2]), Atom(str(int(e[3])))]
+    if k == 'NS':
+        return [Atom('NS'), e[1], e[2]]
+    if k == 'ENS':
+        return [Atom('ENS'), e[1]]
+    if k in ('SC', 'EC'):
+        return Atom(k)
+    raise ValueError(e)
+
+
+def model_requests(case, real):
+    """-> list of (stream name, request line, expected answer as a decoded wire value)"""
+    k = case['kind']
+    cfgw = wire_cfg(case.get('cfg'))
+    out = []
+    if k in ('html', 'raw'):
+        if real['status'] == 'parse-error':
+            return out
+        if real['status'] == 'ok':
+            exp = [Atom('ok'), [wire_ev(e) for e in real['out']]]
+        else:
+            exp = [Atom('err'), Atom(real['exc'].split(':')[0])]
+        out.append(('sanitize', proto.line(Atom('C06'), Atom('filter'), cfgw, [wire_ev(e) for e in real['inp']]), exp))
+        if real['status'] == 'ok':
+            r = real['r']
+            for e in real['out']:
+                if e[0] != 'S':
+                    continue
+                for a, v in e[2]:
+                    if qtext(a) in r['uri_attrs']:
+                        out.append(('spec-scheme', proto.line(Atom('C06'), Atom('bscheme'), v), N if browser_scheme(v) is None else browser_scheme(v)))
+                    if qtext(a) == 'style':
+                        out.append(('spec-cssok', proto.line(Atom('C06'), Atom('cssok'), r['safe_schemes'], v),
+                                    B(not css_problems(v, r['safe_schemes']))))
+    elif k == 'css':
+        san, r = make_sanitizer(case.get('cfg'))
+        try:
+            exp = [Atom('ok'), list(san.sanitize_css(case['text']))]
+        except Exception as ex:  # noqa
+            exp = [Atom('err'), Atom(exc_name(ex))]
+        out.append(('sanitize_css', proto.line(Atom('C06'), Atom('css'), cfgw, case['text']), exp))
+        out.append(('spec-cssdecode', proto.line(Atom('C06'), Atom('cssdecode'), case['text']), css_decode(case['text'])))
+        out.append(('spec-cssok', proto.line(Atom('C06'), Atom('cssok'), r['safe_schemes'], case['text']),
+                    B(not css_problems(case['text'], r['safe_schemes']))))
+    elif k == 'uri':
+        san, r = make_sanitizer(case.get('cfg'))
+        try:
+            exp = B(san.is_safe_uri(case['text']))
+        except Exception as ex:  # noqa
+            exp = [Atom('err'), Atom(exc_name(ex))]
+        out.append(('is_safe_uri', proto.line(Atom('C06'), Atom('uri'), cfgw, case['text']), exp))
+        sch = browser_scheme(case['text'])
+        out.append(('spec-scheme', proto.line(Atom('C06'), Atom('bscheme'), case['text']), N if sch is None else sch))
+    elif k == 'ent':
+        from genshi.util import stripentities
+        try:
+            exp = [Atom('ok'), str(stripentities(case['text']))]
+        except Exception as ex:  # noqa
+            exp = [Atom('err'), Atom(exc_name(ex))]
+        out.append(('stripentities', proto.line(Atom('C06'), Atom('ent'), case['text']), exp))
+    return out
+
+
+def compare(cases, reals, res):
+    reqs = []
+    for i, c in enumerate(cases):
+        if has_surrogate(json.loads(json.dumps(c))):
+            res.count('model:skipped-surrogate-input')
+            continue
+        try:
+            rs = model_requests(c, reals[i])
+        except Exception as ex:  # noqa
+            res.disagreements.append({'stream': 'harness', 'case': c, 'model': None,
+                                      'real': 'building the request raised %s: %s' % (exc_name(ex), ex)})
+            continue
+        for name, line, exp in rs:
+            if has_surrogate(exp):
+                res.count('model:skipped-surrogate-output')
+                continue
+            reqs.append((i, name, line, exp))
+    answers = proto.run_lines([r[2] for r in reqs])
+    for (i, name, _line, exp), ans in zip(reqs, answers):
+        if ans == 'unmodelled':
+            res.count('model:unmodelled')
+            continue
+        try:
+            model = proto.dec(ans)
+        except Exception:
+            model = Atom(ans)
+        if isinstance(exp, list) and len(exp) == 2 and exp[0] == 'ok' and exp[1] == [] and model == [Atom('ok')]:
+            pass
+        res.streams[name] = res.streams.get(name, 0) + 1
+        if norm(model) != norm(exp):
+            res.disagreements.append({'stream': name, 'case': cases[i], 'model': repr(model)[:600], 'real': repr(exp)[:600]})
+
+
+def norm(x):
+    """decoded wire values: an empty list decodes as [] either way; keep Atom/str distinct"""
+    if isinstance(x, Atom):
+        return ('A', str(x))
+    if isinstance(x, str):
+        return ('S', x)
+    if isinstance(x, (list, tuple)):
+        return [norm(y) for y in x]
+    return x
+
+
+def nontrivial_key(case, real):
+    """a case is non-trivial when the sanitizer had to act: it dropped or rewrote something, or a
+    text-level function met an escape / reference / scheme"""
+    k = case['kind']
+    if k in ('html', 'raw'):
+        if real is None or real.get('status') != 'ok' or real['inp'] == real['out']:
+            return None
+    elif k == 'css':
+        if not any(ch in case['text'] for ch in '\\/('):
+            return None
+    elif k == 'uri':
+        if ':' not in case['text'] and '&' not in case['text']:
+            return None
+    elif k == 'ent':
+        if '&' not in case['text']:
+            return None
+    txt = json.dumps(case, sort_keys=True)
+    return txt if len(txt) < 600 else str(hash(txt))
+
+
 def shard(arg):
     seed, idx, n = arg
     rng = random.Random('%s/%s/C06' % (seed, idx))
     res = Result()
     cases = gen_cases(rng, n)
+    reals = []
     for c in cases:
         res.evaluations += 1
         res.count('kind:' + c['kind'])
-        f = oracle_case(c, res)
+        real = run_real(c) if c['kind'] in ('html', 'raw') else None
+        reals.append(real)
+        f = oracle_case(c, res, real)
         if f:
             res.failures.append(f)
+        key = nontrivial_key(c, real)
+        if key:
+            res.nontrivial.add(key)
+        if real and real.get('status') == 'ok':
+            ins = sum(1 for e in real['inp'] if e[0] == 'S')
+            outs = sum(1 for e in real['out'] if e[0] == 'S')
+            res.count('elements-dropped' if outs < ins else 'elements-all-kept')
+            res.count('events-in', len(real['inp']))
+            res.count('events-out', len(real['out']))
+    compare(cases, reals, res)
     res.samples = cases[:2]
     return res
 
